@@ -473,6 +473,36 @@ fn run_sweep(ctx: &crate::engine::Ctx, rec: &mut dyn FnMut(serde_json::Value, In
     Ok(())
 }
 
+/// message lengths far beyond "long": around the sizes at which an implementation would start to absorb the
+/// message in pieces (64 KiB, 10^5, 128 KiB, 10^6, 1 MiB, 2 MiB, 5 * 10^6, 16 MiB; thorough: 64 MiB and 256 MiB), each
+/// with a remainder that is not a multiple of any piece size
+pub fn huge_lens(tier: crate::engine::Tier) -> Vec<usize> {
+    let mut v = vec![65_535, 65_536, 65_537, 100_001, 131_073, 1_000_001, (1 << 20) - 1, 1 << 20, (1 << 20) + 1, (1 << 20) + 12_345, (1 << 21) + 1, 3 * (1 << 20) + 77_777, 5_000_011, (1 << 24) + 1];
+    if tier != crate::engine::Tier::Quick {
+        v.extend([(1 << 26) + 5, (1 << 28) + 3]);
+    }
+    v
+}
+
+fn run_huge(ctx: &crate::engine::Ctx, rec: &mut dyn FnMut(serde_json::Value, Info)) -> Result<(), (String, serde_json::Value)> {
+    let mut jobs = vec![];
+    for e in Expander::all_extended().iter() {
+        for n in huge_lens(ctx.tier) {
+            jobs.push((*e, n));
+        }
+    }
+    let res = crate::engine::par_map(ctx.threads, jobs.len(), |i| sweep_msg(jobs[i].0, jobs[i].1, jobs[i].1, b"QUUX-V01-CS02-huge"));
+    for (i, r) in res.into_iter().enumerate() {
+        r?;
+        let mut info = Info::default();
+        info.nt();
+        info.class(format!("{:?}:huge-message", jobs[i].0));
+        info.class(format!("msg_len>={}", if jobs[i].1 > (1 << 20) { "1MiB" } else { "64KiB" }));
+        rec(serde_json::json!({"sweep": "msg", "expander": format!("{:?}", jobs[i].0), "msg_len": jobs[i].1, "dst_len": 18, "huge": true}), info);
+    }
+    Ok(())
+}
+
 fn replay_sweep(v: &serde_json::Value) -> Result<(), String> {
     let name = v["expander"].as_str().unwrap_or("XmdSha256").to_string();
     let e = *Expander::all_extended().iter().find(|e| format!("{:?}", e) == name).unwrap_or(&Expander::XmdSha256);
@@ -483,7 +513,7 @@ fn replay_sweep(v: &serde_json::Value) -> Result<(), String> {
     let n = v["msg_len"].as_u64().or(v["hi"].as_u64()).unwrap_or(0) as usize;
     let lo = v["msg_len"].as_u64().or(v["lo"].as_u64()).unwrap_or(0) as usize;
     let dl = v["dst_len"].as_u64().unwrap_or(0) as usize;
-    let dst: Vec<u8> = (0..dl).map(|k| b'A' + (k % 26) as u8).collect();
+    let dst: Vec<u8> = if v["huge"].as_bool() == Some(true) { b"QUUX-V01-CS02-huge".to_vec() } else { (0..dl).map(|k| b'A' + (k % 26) as u8).collect() };
     sweep_msg(e, lo, n, &dst).map_err(|(m, _)| m)
 }
 
@@ -498,6 +528,7 @@ pub fn def() -> PropDef {
             Box::new(crate::engine::EnumSub { name: "long-history", rule: super::longhist::RULE, run: run_long_history, replay: super::longhist::replay, exhaustive: false }),
             Box::new(crate::engine::EnumSub { name: "two-input-bursts", rule: super::longhist::BURST_RULE, run: run_two_input_bursts, replay: super::longhist::replay_burst, exhaustive: false }),
             Box::new(crate::engine::EnumSub { name: "length-sweep", rule: "for each of the eight expanders: EVERY message length 0..=16800 (thorough: 0..=70000) with tags of 0, 43 and 255 bytes, and EVERY output length up to 255 blocks (XMD) resp. 4200 / 65535 bytes (XOF), each compared with the model", run: run_sweep, replay: replay_sweep, exhaustive: false }),
+            Box::new(crate::engine::EnumSub { name: "huge-messages", rule: "for each of the eight expanders: messages of 64 KiB .. 16 MiB (thorough: .. 256 MiB) around the sizes at which an implementation would absorb the message in pieces (2^16, 10^5, 2^17, 10^6, 2^20 - 1, 2^20, 2^20 + 1, 2^20 + 12345, 2^21 + 1, 3 * 2^20 + 77777, 5 * 10^6 + 11, 2^24 + 1), each compared with the model", run: run_huge, replay: replay_sweep, exhaustive: false }),
             Box::new(Sub { name: "expand-message", rule: "bytes equal the RFC; requests beyond 255 blocks abort", quick: 60_000, thorough: 250_000, strategy: || boxed(expand_case_strategy()), check: check_expand }),
             Box::new(Sub { name: "related-requests", rule: "a request followed back to back by 1..4 related requests (other tag, other message, other length, other expander, same again), each compared with the model; out-of-domain requests (tags beyond 255 bytes) interleaved, outcome ignored", quick: 30_000, thorough: 300_000, strategy: || boxed(expand_seq_strategy()), check: check_expand_seq }),
             Box::new(Sub { name: "block-reduction", rule: "from_okm / from_ro == OS2IP(block) mod p for Fq (64), Fr (48), Fq2 (2 x 64, real first)", quick: 200_000, thorough: 1_000_000, strategy: || boxed(okm_strategy()), check: check_okm }),
